@@ -106,3 +106,23 @@ PROPS["C12"] = dict(
     assumptions=["panic-freedom of unmodelled code is searched, not proved"],
     design_ref="DESIGN.md §5 C12",
 )
+
+PROPS["C20"] = dict(
+    title="Canonical formatting is idempotent and preserves meaning",
+    modules=["Kust.Props.C20"],
+    theorems=["Kust.C20.fmt_idempotent", "Kust.C20.fmt_map_perm", "Kust.C20.fmt_seq_perm", "Kust.C20.fmt_seq_order_kept",
+              "Kust.C20.fmtN_valueText", "Kust.C20.seqKey_fmtN", "Kust.C20.lastFieldText_perm", "Kust.Fmt.leField_trans", "Kust.Fmt.leField_total",
+              "Kust.C20.field_order_expected", "Kust.C20.whitelist_expected"],
+    components=["fmt.node"],
+    oracle=True,
+    n_corr={"quick": 3000, "thorough": 40000}, n_oracle={"quick": 400, "thorough": 5000},
+    technique="Lean 4 proof (idempotence and permutation-only for ANY sorting function meeting the sort specification, by induction on depth) + Go/Lean correspondence of FormatFilter + byte-level idempotence/value/comment oracle",
+    level_text="Theorems about the transliterated formatter for every sorter, depth, path and table: fmt(fmt x)=fmt x on documents with distinct keys; "
+               "maps and whitelisted lists are only permuted, other lists keep their order; scalar text untouched. Comments ride on nodes (not in the "
+               "tree type) and byte-level claims rest on go-yaml: both decided by the oracle. UseSchema=true (schema-driven quoting) is oracle-free "
+               "and not claimed.",
+    level_note=COMMON_NOTE + "Go sort.Sort is specified by Sorter (perm, sorted, fixes sorted input), sampled by the correspondence; go-yaml emit/parse not modelled.",
+    assumptions=["Sorter.fix: sorting an ordered list returns it unchanged (pdqsort property, sampled)", "documents have distinct mapping keys (NoDupN)",
+                 "UseSchema=false"],
+    design_ref="DESIGN.md §5 C20",
+)
